@@ -87,6 +87,18 @@ pub fn path_arg(rng: &mut Rng, name: &str) -> String {
     }
 }
 
+/// A fixed acceptable value for the path placeholder `name` (cases whose request line must not
+/// depend on the seed).
+fn fixed_arg(name: &str) -> &'static str {
+    match name {
+        "server_name" => "example.org",
+        "room_id" => "!r:example.org",
+        "user_id" => "@u:example.org",
+        "event_id" => "$e",
+        _ => "abc",
+    }
+}
+
 fn mask(rng: &mut Rng) -> u32 {
     match rng.below(6) {
         0 => 0,
@@ -1136,6 +1148,19 @@ pub fn gen(rng: &mut Rng, n: usize, tier: &str) -> Vec<Req> {
             v.extend(real_req_cases(rng, e, "", "{}"));
         }
         v.extend(real_resp_cases(rng, e, "{}"));
+    }
+    // every endpoint with a raw body, without any Content-Type header on the arriving message
+    // (the seeds above always carry one): fixed lines, so that the recorded finding G17 — which
+    // every one of them shows — is matched exactly by `findings/C16.json`
+    for e in 0..syn0 {
+        let Ok(d) = &crate::real::descs()[e] else { continue };
+        if d.req.has_raw() {
+            let args: Vec<String> = w.eps[e].meta._path_parameters().iter().map(|n| fixed_arg(n).to_owned()).collect();
+            v.push(Req::new(format!("c16.rt.req {e} vm32767 0 s746f6b {} s a0 s0001ff", strs_toks(&args)), "rt.req.raw-no-content-type"));
+        }
+        if d.resp.has_raw() {
+            v.push(Req::new(format!("c16.rt.resp {e} i200 a0 s0001ff"), "rt.resp.raw-no-content-type"));
+        }
     }
     let reps = if thorough { 60 } else { 6 };
     for s in seeds::REQUEST_SEEDS {
